@@ -7,6 +7,7 @@
     {"op":"c08.evpn.construct","routes":[...]}                       -> as "evpn.construct" (fix_9 guards)
     {"op":"c08.evf.mpreach.construct" | "c08.evf.mpunreach.construct","value":{...}} -> as "evf.mp*.construct"
     {"op":"c08.srte.construct","attr":14|15,"nexthop":[fam,int]|null,"nlri":{"distinguisher","color","endpoint":[fam,int]}|null}
+    {"op":"c11.pmsi.parse","evpn":bool,"hex":"..."}  ->  {"raise":true} | {"leaf":n,"type":n,"label":n,"tunnel_id":null|[fam,int]|"not supported"}
     {"op":"c08.pmsi.construct","overlay":"mpls"|"vni"|"unsupported","leaf":n,"type":n,"label":n|null,"tunnel_id":[fam,int]|null}
     {"op":"c08.tunnel.construct","policy":{"enc","seg_first","k6","k7","k12","k13","k14","k15","k129","k128"}}  (see readPolicy)
     {"op":"c08.flow6.reach","nexthop":[fam,int]|null,"rules":[[[type, "text" | {"prefix":[fam,int],"len":n,"offset":n}],..],..]}
@@ -22,6 +23,7 @@ import Yabgp.Driver.EvfOps
 import Yabgp.Model.Construct.Guards
 import Yabgp.Model.Construct.EvpnGuards
 import Yabgp.Model.Construct.SrtePmsi
+import Yabgp.Model.Pmsi
 import Yabgp.Model.Construct.Tunnel
 import Yabgp.Model.Construct.Flow
 
@@ -186,6 +188,16 @@ def dispatchC08 (st : C08State) (j : Json) : Except String (C08State × Json) :=
         | none => throw "nlri missing"
         | some n => pure (st, Yabgp.MpGlue.cresJson (Construct.constructSrteReach (← readIpOpt j "nexthop") n))
       else pure (st, Yabgp.MpGlue.cresJson (Construct.constructSrteUnreach (← readSrte j)))
+  | "c11.pmsi.parse" => do
+      let ev ← (← j.getObjVal? "evpn").getBool?
+      match Pmsi.parse ev (← Yabgp.Glue.getHex j "hex") with
+      | none => pure (st, Json.mkObj [("raise", Json.bool true)])
+      | some r =>
+        let tid : Json := match r.tid with
+          | .absent => Json.null
+          | .notSupported => Json.str "not supported"
+          | .ip a => Yabgp.MpGlue.ipJson a
+        pure (st, Json.mkObj [("leaf", Json.num r.leaf), ("type", Json.num r.ttype), ("label", Json.num r.label), ("tunnel_id", tid)])
   | "c08.pmsi.construct" => do
       let o ← Yabgp.Glue.getStr j "overlay"
       let ov : Construct.Overlay := if o = "vni" then .vni else if o = "unsupported" then .unsupported else .mpls
